@@ -8,6 +8,10 @@ prefixed "T ", then "end".  For every pipe lifecycle (`init` … `cleanup`) it
      run of the model — and then rebuilds a model interleaving with `schedule` (Sched.lean; certified
      by C10_reconstruction_certified: its recorded steps ARE a model execution) that must deliver
      exactly the observed blocks: the run of the real code is then a run of the model;
+ (2c) round 6: replays the RECORDED interleaving step by step (`E` line: every mutex / condition-variable event of the pipe's
+     threads, stamped inside the critical sections) with `replay` (TboxModel/C10/Replay.lean; `replay_certified`): each event is
+     matched by an enabled model step, the model decides every branch and the thread's next event must agree; the execution
+     must end joined, not late, with exactly the observed blocks and the observed acquisition order;
  (3) M-class observables: live buffer allocations (peak, and at a quiescent `fillhold` point),
      outcome of an append racing with cleanup (`late`, documented only).
 Prints `ok …`, `reject <reason>` (property level) or `reject M: <reason>` (model-internal observable: block
@@ -17,6 +21,7 @@ import TboxModel.C10.Model
 import TboxModel.C10.Spec
 import TboxModel.C10.BlockRule
 import TboxModel.C10.Sched
+import TboxModel.C10.Replay
 open Tbox.Util Tbox.C10
 
 /-! record format shared with props/C10/harness.cpp -/
@@ -47,12 +52,29 @@ def parseTok (w : String) : Option Tok :=
     match (w.drop 1).toString.toNat? with | some n => if n ≤ 200000 then some (.app n true) else none | none => none
   else match w.toNat? with | some n => if n ≤ 200000 then some (.app n false) else none | none => none
 
+/-- `E LC0 LR0 …` : the event log of one lifecycle; `E off` / `E overflow` / `E unknown-mutex` = no log -/
+def parseEvents (line : String) : Option (Option (List Ev)) :=
+  match words line with
+  | "E" :: toks =>
+    if toks == ["off"] || toks == ["overflow"] then some none
+    else if toks == ["-"] then some (some [])
+    else
+      (toks.mapM fun (w : String) =>
+        match w.toList with
+        | [k, m, t] =>
+          let tid? : Option Nat := if t == 'm' then some 10 else if t.isDigit then some (t.toNat - '0'.toNat) else none
+          tid?.map fun tid => ({ k := k, m := m, t := tid } : Ev)
+        | _ => none).map some
+  | _ => none
+
 structure Live where
   cfg : Cfg
   nextSeq : Array Nat := Array.replicate 8 0
   prog : Array (List (List UInt8)) := Array.replicate 8 []      -- appended in this lifecycle, per thread, in order
   declared : Array (Option (List Tok)) := Array.replicate 8 none   -- producers declared for the next `run`
   nrec : Nat := 0
+  echoSame : Bool := false      -- `echo same`: the sink appends exactly the block it was given (first 3 bytes re-tagged)
+  signals : Bool := false       -- real signals were delivered to the pipe's threads in this lifecycle
   echo : Option Nat := none     -- `echo` script active: payload length of the sink's nested appends (pseudo-producer 8)
   anyApp : Bool := false        -- something was appended in this lifecycle
   nocb : Bool := false          -- `unsetcb`: no sink callback installed — blocks are recycled without being handed to anyone
@@ -68,6 +90,7 @@ structure TAcc where
   lifecycles : Nat := 0
   records : Nat := 0
   blocks : Nat := 0
+  stranded : Nat := 0     -- buffers left in free_buffers_ by an initialize() that threw (Obj.stranded): the next lifecycle starts with them
 
 def expectLine (a : TAcc) (want : String) (what : String) : TAcc :=
   match a.tl with
@@ -163,7 +186,8 @@ def blockRuleN (size : Nat) (appendLens : List Nat) (blocks : List (Nat × Nat))
           (List.range c).all (fun i => bounds.contains (off + (i + 1) * n))) && go (off + n * c) rest
   go 0 blocks
 
-def judgeCompact (a : TAcc) (lv : Live) (kl sl cl il al ql : String) (rest : List String) : TAcc :=
+def judgeCompact (a : TAcc) (lv : Live) (kl sl cl il al ql el : String) (rest : List String) : TAcc :=
+  if el != "E off" then { a with err := some s!"op#{a.nops} a compact lifecycle carries no event log, got [{el.take 40}]" } else
   match words kl, words sl with
   | ["K", ks], ["S", "compact", tw, mw] =>
     match parseLens ks, (if tw.startsWith "total=" then (tw.drop 6).toString.toNat? else none), parsePairs al "A", parsePairs ql "Q" with
@@ -188,7 +212,7 @@ def judgeCompact (a : TAcc) (lv : Live) (kl sl cl il al ql : String) (rest : Lis
         ++ (if mx ≥ 16777216 then ["append>=2^24"] else []) ++ (if mx ≥ 2147483648 then ["append>=2^31"] else [])
         ++ (if mx ≥ 4294967296 then ["append>=2^32"] else [])
         ++ (if mx > lv.cfg.size then ["append>buffer"] else [])
-      { a with tags := a.tags ++ tags, live := none, lifecycles := a.lifecycles + 1, records := a.records + recs.length,
+      { a with tags := a.tags ++ tags, live := none, stranded := 0, lifecycles := a.lifecycles + 1, records := a.records + recs.length,
                blocks := a.blocks + blocks.foldl (fun n b => n + b.2) 0 }
     | _, _, _, _ => { a with err := some s!"op#{a.nops} unparsable K/S/A/Q lines of a compact lifecycle" }
   | _, _ => { a with err := some s!"op#{a.nops} expected K and S compact lines, got [{kl.take 60}] [{sl.take 60}]" }
@@ -198,10 +222,10 @@ def judgeCleanup (a : TAcc) (lv : Live) (first : String) (what : String) : TAcc 
   let a := expectLine a first what
   if a.err.isSome then a else
   match a.tl with
-  | kl :: sl :: cl :: il :: nl :: al :: ql :: rest =>
-    if lv.compact then judgeCompact a lv kl sl cl il al ql rest else
-    match words kl, words sl, words nl, parsePairs al "A", parsePairs ql "Q" with
-    | ["K", ks], ["S", hx], ["N", ns], some aborted, some acqs =>
+  | kl :: sl :: cl :: il :: nl :: al :: ql :: el :: rest =>
+    if lv.compact then judgeCompact a lv kl sl cl il al ql el rest else
+    match words kl, words sl, words nl, parsePairs al "A", parsePairs ql "Q", parseEvents el with
+    | ["K", ks], ["S", hx], ["N", ns], some aborted, some acqs, some events =>
       -- nested appends made by the sink callback (all completed before cleanup began): block ordinals, in order
       let nested? : Option (List Nat) := if ns == "-" then some [] else (ns.splitOn ",").mapM (·.toNat?)
       match nested? with
@@ -232,8 +256,28 @@ def judgeCleanup (a : TAcc) (lv : Live) (first : String) (what : String) : TAcc 
         if lv.nocb then
           -- no callback installed: nothing can have been handed to anyone; the lifecycle must still end (it did)
           if !stream.isEmpty || !lens.isEmpty then { a with err := some "internal: blocks recorded although the harness removed its callback" } else
-          { a with tags := a.tags ++ ["no-callback"], live := none, lifecycles := a.lifecycles + 1 } else
-        let nestedRecs : List (List UInt8) := (List.range nested.length).map fun j => recordBytes 8 j (lv.echo.getD 0)
+          -- the recorded interleaving is still replayed (the model's `delivered` = what a sink would have been handed)
+          let progN : Nat → List (List UInt8) := fun p => lv.prog.getD p []
+          let rpErr : Option String := match events with
+            | none => none
+            | some evs =>
+              let rp := replay (initOn a.stranded lv.cfg progN) evs
+              match rp.err with
+              | some e => some s!"replay of the recorded interleaving failed at {e}"
+              | none => if !rp.core.s.joined || rp.core.s.late then some "the replayed interleaving does not end in a clean join"
+                        else if rp.core.s.delivered.flatten != (rp.core.s.acq.map (·.2)).flatten then some "internal: replayed stream differs from the appends"
+                        else none
+          match rpErr with
+          | some e => { a with err := some s!"M: op#{a.nops} {e} (no callback installed)" }
+          | none =>
+          { a with tags := a.tags ++ ["no-callback"] ++ (if events.isSome then ["replayed"] else []), live := none, stranded := 0, lifecycles := a.lifecycles + 1 } else
+        let blocks0 := splitBlocks stream lens
+        let nestedRecs : List (List UInt8) :=
+          if lv.echoSame then
+            -- `echo same`: the j-th nested append is the block whose callback made it, with the first 3 bytes re-tagged
+            (List.range nested.length).map fun j =>
+              [UInt8.ofNat 0xA8, UInt8.ofNat (j / 256), UInt8.ofNat (j % 256)] ++ ((blocks0.getD (nested.getD j 0) []).drop 3)
+          else (List.range nested.length).map fun j => recordBytes 8 j (lv.echo.getD 0)
         let prog0 : Nat → List (List UInt8) := fun p => if p == 8 then nestedRecs else lv.prog.getD p []
         -- (1) the property, decided by the abstract spec (an append that reported bad_alloc contributes the prefix it wrote)
         match findCuts prog0 stream aborted with
@@ -248,7 +292,7 @@ def judgeCleanup (a : TAcc) (lv : Live) (first : String) (what : String) : TAcc 
           if lens.foldl (· + ·) 0 != stream.length then
             { a with err := some s!"op#{a.nops} block lengths do not add up to the stream" } else
           if lens.any (· == 0) then { a with err := some s!"M: op#{a.nops} sink called with an EMPTY block" } else
-          let blocks := splitBlocks stream lens
+          let blocks := blocks0
           if !blockRule lv.cfg.size (order.map (·.2)) blocks then
             let bnds := boundsOf (order.map (·.2))
             let ends := (prefixSums lens).reverse
@@ -263,27 +307,60 @@ def judgeCleanup (a : TAcc) (lv : Live) (first : String) (what : String) : TAcc 
             let k := ((acqsSeen.zip orderIds).findIdx? (fun (x, y) => x != y)).getD (min acqsSeen.length orderIds.length)
             { a with err := some s!"M: op#{a.nops} acquisition order recorded at the producer mutex differs from the order of the appends in the stream at position {k} ({acqsSeen.length} stamped, {orderIds.length} in the stream) (C10_stream: the stream is the appends in acquisition order)" } else
           let maxE := lv.nrec + nested.length + 1
-          let sch := schedule lv.cfg prog order (prefixSums lens) maxE
+          -- with a recorded interleaving (E line) the replay below is the tie; the order/boundary-driven reconstruction
+          -- `schedule` (round 3, heuristic placement of the back end's steps) remains the tie for lifecycles without a log
+          let sch := if events.isSome then schedule lv.cfg (fun _ => []) [] [] 0 else schedule lv.cfg prog order (prefixSums lens) maxE
+          let blocksS := if events.isSome then [] else blocks
           match sch.err with
           | some e => { a with err := some s!"M: op#{a.nops} reconstruction failed on a run that satisfies the block rule (defect of the reconstruction, not shown of the implementation): {e}" }
           | none =>
-            if sch.s.delivered != blocks then
+            if sch.s.delivered != blocksS then
               { a with err := some s!"M: op#{a.nops} reconstruction delivered other blocks than observed although the block rule holds (defect of the reconstruction, not shown of the implementation)" }
             else if !sch.s.joined || sch.s.late then { a with err := some "internal: model schedule did not end in a clean join" }
             else
+              -- (2c) the recorded interleaving, step by step
+              let rp? := events.map (fun evs => (evs.length, replay (initOn a.stranded lv.cfg prog0) evs))
+              let rpErr : Option String := match rp? with
+                | none => none
+                | some (_, rp) =>
+                  match rp.err with
+                  | some e => some s!"replay of the recorded interleaving failed at {e} (after {rp.core.rsteps.length} model steps)"
+                  | none =>
+                    let s := rp.core.s
+                    if s.delivered != blocks then some "the replayed interleaving delivers other blocks than the sink received"
+                    else if !s.joined || s.late then some "the replayed interleaving does not end in a clean join"
+                    else if aborted.isEmpty && (s.acq.filter (fun x => !x.2.isEmpty)) != order then
+                      some "the replayed interleaving acquires the producer lock in another order than the appends appear in the stream"
+                    else if aborted.length != (rp.core.rsteps.filter (· == XStep.allocFail)).length then
+                      some s!"{aborted.length} append(s) reported bad_alloc, the replayed interleaving has {(rp.core.rsteps.filter (· == XStep.allocFail)).length} allocation failure(s)"
+                    else if rp.noNotify > 0 then
+                      some s!"{rp.noNotify} hand-over(s) / recycle(s) / stop signal(s) without a following notify (the waiting side is only woken by a time-out, or never)"
+                    else none
+              match rpErr with
+              | some e => { a with err := some s!"M: op#{a.nops} {e} (C10_replay_certified: every recorded event must be an enabled model step)" }
+              | none =>
+              let rtags := match rp? with
+                | none => ["replay-off"]
+                | some (n, rp) => ["replayed"] ++ (if n ≥ 1000 then ["events>=1000"] else [])
+                    ++ (if rp.spurious > 0 then ["spurious-wakeup"] else [])
+                    ++ (if rp.windowFix > 0 then ["trylock-window"] else [])
+                    ++ (if rp.blockedSeen then ["replayed-backpressure"] else [])
+                    ++ (if rp.core.rsteps.any (fun x => x == XStep.base .bGrab) && rp.core.s.delivered.any (fun b => b.length < lv.cfg.size) then ["replayed-grab"] else [])
               let nthreads := ((List.range 8).filter fun p => !(Spec.dropEmpties (prog p)).isEmpty).length
               let switches := (order.zip (order.drop 1)).filter (fun (x, y) => x.1 != y.1) |>.length
               let partials := (lens.dropLast.filter (· < lv.cfg.size)).length
               let spanning := order.any (fun pd => pd.2.length > lv.cfg.size)
               let small := order.any (fun pd => pd.2.length < lv.cfg.size)
               let exact := order.any (fun pd => pd.2.length == lv.cfg.size)
-              let tags := (if nthreads > 1 then ["producers>1"] else ["producers<=1"])
+              let tags := rtags ++ (if lv.echoSame && nested.length > 0 then ["echo-same"] else [])
+                ++ (if lv.signals then ["signals"] else [])
+                ++ (if nthreads > 1 then ["producers>1"] else ["producers<=1"])
                 ++ (if switches > nthreads then ["interleaved"] else [])
                 ++ (if partials > 0 then ["timed-flush"] else [])
                 ++ (if spanning then ["append>buffer"] else [])
                 ++ (if small then ["append<buffer"] else [])
                 ++ (if exact then ["append=buffer"] else [])
-                ++ (if sch.blockedSeen then ["model-backpressure"] else [])
+                ++ (if sch.blockedSeen || (match rp? with | some (_, rp) => rp.blockedSeen | none => false) then ["model-backpressure"] else [])
                 ++ (if realBp then ["real-backpressure"] else [])
                 ++ (if nested.length > 0 then ["nested-append"] else if lv.echo.isSome then ["echo-idle"] else [])
                 ++ (if lv.cfg.minN == lv.cfg.maxN then ["min=max"] else ["min<max"])
@@ -295,10 +372,14 @@ def judgeCleanup (a : TAcc) (lv : Live) (first : String) (what : String) : TAcc 
                 ++ (if !aborted.isEmpty then ["append-bad_alloc"] else [])
                 ++ (if first == "P destroy ok" then ["destructor"] else [])
                 ++ (if lens.getLast? != some lv.cfg.size && !lens.isEmpty then ["cleanup-flushed-partial"] else [])
-              { a with tags := a.tags ++ tags, live := none, lifecycles := a.lifecycles + 1,
+                ++ (let bnds := boundsOf (order.map (·.2))
+                    if (List.zip lens (prefixSums lens).reverse).any (fun (n, e) => n == lv.cfg.size && bnds.contains e) then ["exact-fill"] else [])
+                ++ (if order.any (fun pd => pd.2.length == lv.cfg.size * lv.cfg.maxN) then ["append=size*max"] else [])
+                ++ (if a.stranded > 0 then ["stranded-start"] else [])
+              { a with tags := a.tags ++ tags, live := none, stranded := 0, lifecycles := a.lifecycles + 1,
                        records := a.records + order.length, blocks := a.blocks + lens.length }
       | _, _ => { a with err := some s!"op#{a.nops} unparsable K/S lines" }
-    | _, _, _, _, _ => { a with err := some s!"op#{a.nops} expected K, S … N, A, Q lines after cleanup, got [{kl.take 60}]" }
+    | _, _, _, _, _, _ => { a with err := some s!"op#{a.nops} expected K, S … N, A, Q, E lines after cleanup, got [{kl.take 60}] … [{el.take 40}]" }
   | _ => { a with err := some s!"op#{a.nops} implementation output ends inside cleanup" }
 
 def inRange (w : String) (hi : Nat) : Option Nat :=
@@ -333,7 +414,7 @@ def stepOp (a : TAcc) (line : String) : TAcc :=
       | some sz, some mn, some mx, some iv =>
         if kind == "alloc" && (k < 1 || k > mn) then bad else
         let cfg : Cfg := { size := sz, minN := mn, maxN := mx, interval := iv }
-        if cfg.ok then expectLine { a with tags := a.tags ++ ["init-threw-" ++ kind] } "P init threw" "initialize with a failing thread creation / allocation (the exception must reach the caller)"
+        if cfg.ok then expectLine { a with tags := a.tags ++ ["init-threw-" ++ kind], stranded := a.stranded + (if kind == "alloc" then k - 1 else mn) } "P init threw" "initialize with a failing thread creation / allocation (the exception must reach the caller)"
         else expectLine { a with tags := a.tags ++ ["init-rejected"] } "P init 0" "initialize (bad config must be refused)"
       | _, _, _, _ => bad
     | _, _ => bad
@@ -352,9 +433,9 @@ def stepOp (a : TAcc) (line : String) : TAcc :=
     -- (`every`) / on every block shorter than a buffer, i.e. from a timed flush (`partial`); `never` switches it off
     match inRange w2 1000, inRange w3 2000, a.live with
     | some n, some len, some lv =>
-      if n < 1 || !(w1 == "every" || w1 == "partial" || w1 == "never") then bad
+      if n < 1 || !(w1 == "every" || w1 == "partial" || w1 == "never" || w1 == "same") then bad
       else if lv.echo.isSome then bad
-      else expectLine { a with live := some { lv with echo := if w1 == "never" then none else some len } } "P echo" "echo"
+      else expectLine { a with live := some { lv with echo := if w1 == "never" then none else some len, echoSame := w1 == "same" } } "P echo" "echo"
     | _, _, _ => bad
   | ["unsetcb"] =>
     match a.live with
@@ -455,6 +536,15 @@ def stepOp (a : TAcc) (line : String) : TAcc :=
         | _ => expectLine a s!"M exp {kind} outcome=<word>" "exp"
       | [] => expectLine a s!"M exp {kind} outcome=<word>" "exp"
     | _, _, _, _ => bad
+  | ["sig", w1, w2] =>
+    -- real signals (SIGUSR1, handled) to the back-end thread: must change nothing
+    match inRange w1 200, inRange w2 5000, a.live with
+    | some _, some _, some lv => expectLine { a with live := some { lv with signals := true } } "P sig" "sig"
+    | _, _, _ => bad
+  | ["sigrun", w1, w2] =>
+    match inRange w1 200, inRange w2 5000, a.live with
+    | some _, some _, some lv => expectLine { a with live := some { lv with signals := true } } "P sigrun" "sigrun"
+    | _, _, _ => bad
   | ["sleep", w1] =>
     match inRange w1 500 with
     | some _ => expectLine a "P sleep" "sleep"
@@ -466,7 +556,7 @@ def stepOp (a : TAcc) (line : String) : TAcc :=
   | ["destroy"] =>
     -- the destructor: `~Impl` calls cleanup() (Api.destroy) — the same judgement as an explicit cleanup
     match a.live with
-    | none => expectLine a "P destroy noop" "destructor of a pipe that is not initialised"
+    | none => expectLine { a with stranded := 0 } "P destroy noop" "destructor of a pipe that is not initialised"
     | some lv => judgeCleanup a lv "P destroy ok" "the destructor of a running pipe did not return normally"
   | _ => bad
 
